@@ -156,10 +156,12 @@ def do_check(check, modname, prop, args, seed, tmpdir, t0):
         all_results.extend(res)
     merged = harness.merge(all_results)
     coverage, assumptions, guards = check.summarize(args.tier, seed, merged, phase_info)
-    # vacuity guards
-    for name, value in guards:
-        if not value:
-            raise harness.HarnessError("vacuity guard '%s' counted 0 — the exploration did not reach what it claims" % name)
+    # vacuity guards: only when nothing was violated (a broken library may legitimately starve a guard, e.g. by
+    # raising everywhere; the violations are then what has to be reported)
+    if merged['total_violations'] == 0:
+        for name, value in guards:
+            if not value:
+                raise harness.HarnessError("vacuity guard '%s' counted 0 — the exploration did not reach what it claims" % name)
     # violations vs known findings
     known = harness.load_known(prop)
     new_viol = []
